@@ -379,6 +379,14 @@ def replay_eval(pid, d):
     if not inp:
         print('replay file carries no concrete input (correspondence failure)')
         return 0
+    if pid == 'C19':
+        import reprs
+        msg = reprs.replay(inp)
+        if msg:
+            print(f'reproduced: property=C19 {msg}')
+            return 1
+        print('not reproduced on the current tree')
+        return 0
     tn = inp[0]
     if pid == 'C05':
         line, h = ec.impl_eval(tn, inp[1] if inp[1] != '=' else '', inp[2] if inp[2] != '=' else '')
@@ -417,6 +425,60 @@ def impl_types():
     return impl.HAND_TYPES
 
 
-for _pid, _fn in (('C04', decide_c04), ('C05', decide_c05)):
+def _c19_part(args):
+    import reprs
+    name, seed, count = args
+    return name, getattr(reprs, 'check_' + name)(seed, count)
+
+
+def decide_c19(pid, spec, tier, seed, theorems, t0):
+    from concurrent.futures import ProcessPoolExecutor
+    k = 10 if tier == 'thorough' else 1
+    jobs = []
+    for j in range(4 * k):
+        jobs += [('chips', seed * 100 + j, 1500), ('cards', seed * 100 + j, 1200), ('helpers', seed * 100 + j, 1500)]
+    for j in range(2 * k):
+        jobs.append(('states', seed * 100 + j, 25))
+    with ProcessPoolExecutor(max_workers=16) as ex:
+        rs = list(ex.map(_c19_part, jobs))
+    viols = [v for _, r in rs for v in r['viols']]
+    diffs = [dict(d, part=name) for name, r in rs for d in r['diffs']]
+    counts = Counter()
+    for name, r in rs:
+        counts[name] += r['count']
+    rc = 0
+    if viols:
+        v = viols[0]
+        replay = fw.write_replay(pid, seed, dict(kind='violation', property=pid, clause=v['clause'],
+                                                  signature=v['signature'], detail=v['detail'], input=v['input']))
+        print(f'VIOLATION property={pid} replay={replay}')
+        rc = 1
+    elif diffs:
+        replay = fw.write_replay(pid, seed, dict(kind='correspondence', property=pid,
+                                                  theorems_no_longer_tied=[n for n, _ in theorems],
+                                                  first_difference=diffs[0], searched_inputs=sum(counts.values())))
+        print(f'VIOLATION property={pid} replay={replay} no-failing-input-found')
+        rc = 1
+    wall = time.time() - t0
+    cov = dict(obligations=len(theorems), discharged=len(theorems),
+               checker_cmd=f'cd lean && lake build PK && lake env lean PK/Audit/{pid}.lean',
+               trusted_base=fw.TRUSTED_BASE, theorems=[dict(name=n, axioms=ax) for n, ax in theorems],
+               evaluations=sum(counts.values()), distinct_nontrivial=sum(counts.values()),
+               rule='chip layouts (number / list short, exact, long / mapping with positive, negative, mixed, duplicate-seat and '
+                    'out-of-range keys), card texts (all 70 cards, 10 for T, 0-6 cards with ten kinds of separator, malformed text), '
+                    'divmod and rake arguments generated from one PRNG; utilities compared with the Lean model line by line; the '
+                    'property itself (all writings agree; states equal; invalid layouts refused; parts add up) evaluated on the implementation',
+               correspondence=dict(inputs=dict(counts), differences=len(diffs)),
+               monitor=dict(violations_new=len(viols)), samples=[])
+    fw.write_evidence(pid, tier, seed, cov, [
+        'chips are python int in the modelled helpers (Fraction/float/Decimal chips: not modelled)',
+        'str.split() whitespace set transcribed into the model (isPyWhitespace); other Unicode behaviour of str is trusted',
+    ], wall, len(viols) + (1 if rc and not viols else 0))
+    print(f'{pid}: theorems={len(theorems)} inputs={dict(counts)} diffs={len(diffs)} spec_violations={len(viols)} '
+          f'wall={wall:.1f}s -> {"FAIL" if rc else "ok"}')
+    return rc
+
+
+for _pid, _fn in (('C04', decide_c04), ('C05', decide_c05), ('C19', decide_c19)):
     if os.path.exists(os.path.join(fw.LEAN, 'PK', 'Audit', f'{_pid}.lean')):
         PROPS[_pid] = dict(kind='eval', decide=_fn, monitors=[])
